@@ -264,7 +264,7 @@ impl Prop for C04 {
         vec![
         Box::new(CrashDomain {
             name: "crash",
-            quick: 2_000,
+            quick: 4_000,
             thorough: 60_000,
             profile: crash_profile_c04,
             cfg: || CrashCfg {
@@ -283,7 +283,7 @@ impl Prop for C04 {
         }),
         Box::new(ConcCrashDomain {
             name: "conc",
-            quick: 1_500,
+            quick: 2_500,
             thorough: 45_000,
             cfg: || CrashCfg {
                 check_safe: true,
@@ -326,7 +326,7 @@ impl Prop for C05 {
         vec![
         Box::new(CrashDomain {
             name: "crash",
-            quick: 2_000,
+            quick: 3_000,
             thorough: 50_000,
             profile: crash_profile,
             cfg: || CrashCfg {
@@ -345,7 +345,7 @@ impl Prop for C05 {
         }),
         Box::new(ConcCrashDomain {
             name: "conc",
-            quick: 1_500,
+            quick: 2_000,
             thorough: 40_000,
             cfg: || CrashCfg {
                 check_safe: false,
